@@ -6,21 +6,24 @@ CONSTANTS MaxSettings, Emit,
           FullPairs     \* TRUE: pairs over all candidates; FALSE: pairs over a reduced candidate set (singles are always complete)
 
 \* "yn" / "g.yn" are yes/no flags (ActionYesNo): booleans like "b", declared differently by the harness
-Shape == [k \in {"i", "f", "b", "s", "o", "os", "l", "m", "ls", "d", "g.i", "g.s", "g.h.l", "yn", "g.yn"} |->
+Shape == [k \in {"i", "f", "b", "s", "o", "os", "l", "m", "ls", "d", "dl", "g.i", "g.s", "g.h.l", "yn", "g.yn"} |->
   CASE k = "i" -> Ty("scalar", "int", FALSE)   [] k = "f" -> Ty("scalar", "float", FALSE) [] k = "b" -> Ty("scalar", "bool", FALSE)
     [] k = "s" -> Ty("scalar", "str", FALSE)   [] k = "o" -> Ty("scalar", "int", TRUE)    [] k = "os" -> Ty("scalar", "str", TRUE)
     [] k = "l" -> Ty("list", "int", FALSE)     [] k = "m" -> Ty("list", "float", FALSE)   [] k = "ls" -> Ty("list", "str", FALSE)
-    [] k = "d" -> Ty("dict", "int", FALSE)     [] k = "g.i" -> Ty("scalar", "int", FALSE) [] k = "g.s" -> Ty("scalar", "str", FALSE)
+    [] k = "d" -> Ty("dict", "int", FALSE)     [] k = "dl" -> Ty("dictlist", "int", FALSE)   [] k = "g.i" -> Ty("scalar", "int", FALSE) [] k = "g.s" -> Ty("scalar", "str", FALSE)
     [] k = "g.h.l" -> Ty("list", "int", FALSE) [] k \in {"yn", "g.yn"} -> Ty("scalar", "bool", FALSE)]
-KeySeq == <<"i", "f", "b", "s", "o", "os", "l", "m", "ls", "d", "g.i", "g.s", "g.h.l", "yn", "g.yn">>
+KeySeq == <<"i", "f", "b", "s", "o", "os", "l", "m", "ls", "d", "dl", "g.i", "g.s", "g.h.l", "yn", "g.yn">>
 
 List(es) == [c |-> "list", e |-> es]
 Dict(es) == [c |-> "dict", e |-> es]
+DictList(es) == [c |-> "dictlist", e |-> es]
 NonStrings == {Scalar("int", "3"), Scalar("int", "-3"), Scalar("int", "0"), Scalar("float", "2.5"), Scalar("float", "1.0"),
                Scalar("float", "2500.0"), Scalar("float", "1000.0"), Scalar("float", "1e-07"), Scalar("float", "1e+16"),
                Scalar("bool", "true"), Scalar("bool", "false"), Null,
                List(<<El("int", "1", ""), El("int", "2", "")>>), List(<< >>), List(<<El("float", "1.5", "")>>),
                List(<<El("float", "2500.0", ""), El("int", "1", "")>>), List(<<El("bool", "true", "")>>),
+               DictList(<<El("int", "1", "k1"), El("int", "2", "k1")>>), DictList(<<El("int", "1", "k1"), El("int", "3", "k2"), El("int", "4", "k2")>>),
+               DictList(<<El("int", "1", "k1"), El("float", "1.5", "k1")>>),
                Dict(<<El("int", "1", "k1")>>), Dict(<< >>), Dict(<<El("int", "1", "k1"), El("int", "2", "k2")>>), Dict(<<El("float", "2.5", "k1")>>)}
 Texts == {"abc", "", "1", "true", "s p", "1e3", "2.5", "a: b", "#x", "[1]", "{}"}
 \* strings only where the position is str (the property's "unambiguous" settings); containers of strings also at
@@ -42,6 +45,7 @@ Reduced(k) == LET t == Shape[k] IN
   \cup (IF t.c = "scalar" /\ t.st = "str" THEN {Scalar("str", "1"), Scalar("str", "")} ELSE {})
   \cup (IF t.c = "list" THEN {List(<<El("int", "1", ""), El("int", "2", "")>>)} ELSE {})
   \cup (IF t.c = "dict" THEN {Dict(<<El("int", "1", "k1")>>)} ELSE {})
+  \cup (IF t.c = "dictlist" THEN {DictList(<<El("int", "1", "k1"), El("int", "2", "k1")>>)} ELSE {})
 Cands(k, n) == IF n = 1 \/ FullPairs THEN Candidates(k) ELSE Reduced(k)
 Setting(k, v) == [key |-> k, v |-> v]
 RECURSIVE SettingsFrom(_, _, _)
@@ -61,7 +65,7 @@ ChannelIndependent == \A ch \in AllChannels, mode \in AllModes :
 \* accepted results conform: every non-null value has the container and element kinds of its type
 ResultConforms == Outcome(Shape, ss).ok =>
                     \A k \in DOMAIN Shape : LET v == Outcome(Shape, ss).cfg[k] IN
-                       IsNull(v) \/ (v.c = Shape[k].c /\ \A j \in 1..Len(v.e) : v.e[j].k = Shape[k].st)
+                       IsNull(v) \/ ((v.c = Shape[k].c \/ (v.e = << >> /\ v.c = "dict" /\ Shape[k].c = "dictlist")) /\ \A j \in 1..Len(v.e) : v.e[j].k = Shape[k].st)
 \* where the algorithm differs from the reference: emitted so that the harness can tell "behaves as the recorded deviation"
 Devs == LET S == {<<ch, mode>> \in AllChannels \X AllModes : AlgOutcome(ch, mode, Shape, ss) # Outcome(Shape, ss)}
             q == SetToSeq(S)
